@@ -90,6 +90,23 @@ func runReplay(out *bufio.Writer, path string) int {
 				}
 				c.add(&gmars.WarriorData{Code: parseCellsWire(cells), Start: st})
 			}
+		case "a":
+			if c != nil && len(f) >= 2 {
+				st, _ := strconv.Atoi(f[1])
+				cells := ""
+				if len(f) >= 3 {
+					cells = f[2]
+				}
+				c.addQuiet(&gmars.WarriorData{Code: parseCellsWire(cells), Start: st})
+			}
+		case "t":
+			if c != nil {
+				c.resetQuiet()
+			}
+		case "M":
+			if c != nil {
+				c.attach()
+			}
 		case "S":
 			if c != nil && len(f) >= 3 {
 				wi, _ := strconv.Atoi(f[1])
